@@ -715,6 +715,18 @@ func execSched(spec *RunSpec, st *Stats) *Violation {
 		skip bool
 	}
 	expect := make([][]exp, n)
+	// what the callers asked to convert; the reference is always asked about these bytes
+	pristine := make([][]byte, len(spec.Docs))
+	for i, d := range spec.Docs {
+		pristine[i] = append(make([]byte, 0, len(d)+16), d...)
+	}
+	soloDocs := func() [][]byte {
+		out := make([][]byte, len(pristine))
+		for i, d := range pristine {
+			out[i] = append(make([]byte, 0, len(d)+16), d...)
+		}
+		return out
+	}
 	computeExpect := func() {
 		for i, ops := range spec.Clients {
 			expect[i] = make([]exp, len(ops))
@@ -724,7 +736,7 @@ func execSched(spec *RunSpec, st *Stats) *Violation {
 					cfg = Config{}
 				}
 				if op.Fault == nil {
-					ref := refModel.Get(cfg, spec.Docs[op.Doc])
+					ref := refModel.Get(cfg, pristine[op.Doc])
 					if ref.out == nil {
 						expect[i][k] = exp{skip: true}
 					} else {
@@ -736,11 +748,11 @@ func execSched(spec *RunSpec, st *Stats) *Violation {
 				solo.Ctx, solo.Reader = false, false
 				var res OpResult
 				if op.Kind == "RenderPre" {
-					env := newEnv(cfg, spec.Docs)
-					tr := map[int]*treeHandle{op.Tree: {node: env.p.Parse(text.NewReader(spec.Docs[op.Doc])), doc: op.Doc}}
+					env := newEnv(cfg, soloDocs())
+					tr := map[int]*treeHandle{op.Tree: {node: env.p.Parse(text.NewReader(env.docs[op.Doc])), doc: op.Doc}}
 					res = execOp(env, tr, 0, 0, solo, nil)
 				} else {
-					res = runSolo(cfg, spec.Docs, solo)
+					res = runSolo(cfg, soloDocs(), solo)
 				}
 				if res.Panic != "" {
 					expect[i][k] = exp{skip: true}
@@ -752,7 +764,7 @@ func execSched(spec *RunSpec, st *Stats) *Violation {
 	}
 	for _, ops := range spec.Clients {
 		for _, op := range ops {
-			if op.Doc < 0 || op.Doc >= len(spec.Docs) {
+			if op.Doc < 0 || op.Doc >= len(spec.Docs) || op.Kind == "AuxConvert" && op.Aux == nil {
 				return nil // malformed candidate produced by shrinking
 			}
 		}
